@@ -33,15 +33,20 @@ func c20(c *Ctx) {
 	c.Rule("R2", "E3 ordering", "defaults → environment → user options in NewHTTPConfig/NewGRPCConfig (four copies); log exporters apply options before resolving environment and defaults", 10)
 	c.Rule("R3", "E4 constants", "endpoint path rule: generic ENDPOINT appends the signal's default path to the URL path, the signal-specific ENDPOINT is used verbatim ('/' when empty)", 11)
 	c.Rule("R4", "E7 cfgflow", "no environment- or option-derived integer reaches a panicking sink unsanitised: BatchSpanProcessor sizes, sdk/log batch settings (clearLessThanOne → fallback chain), PeriodicReader interval/timeout", 12)
-	c.Rule("R5", "E2 table", "samplerFromEnv: six sampler names ↦ constructors, missing argument ↦ ratio 1.0, invalid argument ↦ ratio 1.0 plus the error, unknown name ↦ error; firstInt / IntEnvOr return the default on parse errors and prefer the signal-specific key", 12)
+	c.Rule("R5", "E2 table", "samplerFromEnv: six sampler names ↦ constructors, missing argument ↦ ratio 1.0, invalid argument ↦ ratio 1.0 plus the error, unknown name ↦ error; firstInt / IntEnvOr return the default on parse errors and prefer the signal-specific key; a set key always decides", 13)
 	c.Rule("R6", "E3 ordering", "SDK constructors read the environment before applying options", 3)
 
+	c.Rule("R7", "E3 must-pass (negative form)", "environment readers of the trace/metric exporters (later reader wins): once the variable is present the setter is called on every path, excused only by a parse/read error — so a signal-specific value always replaces what the generic variable set", 32)
 	for _, ec := range envCopies {
 		ix := c.Index(ec.dir, ec.pkg)
 		if ix == nil {
 			continue
 		}
 		c20EnvCopy(c, ix, ec)
+		c20EnvReaders(c, ix, "WithEnvCompression")
+		if ex := c.Index(ec.dir, ec.pkg[:strings.LastIndex(ec.pkg, "/")]+"/envconfig"); ex != nil {
+			c20EnvReaders(c, ex, "WithString", "WithBool", "WithDuration", "WithHeaders", "WithURL", "WithCertPool", "WithClientCert")
+		}
 	}
 	for _, m := range otlpClients {
 		if m.signal != "log" {
@@ -868,6 +873,48 @@ func c20SDK(c *Ctx) {
 		}
 		c.Check(good, "R5", "sdk/internal/env|"+nm+"|parse error ⇒ default", at(ex.M, fn.Pos()), "unparsable values are ignored", "an unparsable integer variable does not fall back to the default")
 	}
+	// firstInt: the next key is consulted only when this one is unset — a set key decides, whatever its value
+	if fn := c.Fn(ex, "R5", "firstInt"); fn != nil {
+		g := ex.FG(fn)
+		var body, loop *GNode
+		for b, h := range g.head {
+			switch b.Kind.String() {
+			case "RangeBody":
+				body = h
+			case "RangeLoop":
+				loop = h
+			}
+		}
+		unset := func(e *GEdge) bool {
+			return g.edgeImpliesDeep(e, func(cnd ast.Expr, pol int) bool {
+				l, op, r, ok := cmpNorm(cnd, pol)
+				if !ok || op != token.EQL {
+					return false
+				}
+				isRaw := func(x ast.Expr) bool {
+					if call, ok := unparen(x).(*ast.CallExpr); ok {
+						return isCallTo(einfo, call, "os.Getenv")
+					}
+					if id, ok := unparen(x).(*ast.Ident); ok {
+						if def := g.LocalDef(einfo.Uses[id]); def != nil {
+							call, ok := unparen(def).(*ast.CallExpr)
+							return ok && isCallTo(einfo, call, "os.Getenv")
+						}
+					}
+					return false
+				}
+				isEmpty := func(x ast.Expr) bool { s, ok := constString(einfo, x); return ok && s == "" }
+				return isRaw(l) && isEmpty(r) || isRaw(r) && isEmpty(l)
+			})
+		}
+		good := body != nil && loop != nil
+		if good {
+			seen, _ := g.Reach([]*GNode{body}, nil, unset)
+			good = !seen[loop]
+		}
+		c.Check(good, "R5", "sdk/internal/env|firstInt|the next key is consulted only when this one is unset", at(ex.M, fn.Pos()), "a set key decides the result",
+			"a key that is set can be skipped in favour of the next (more general) one — e.g. a span-specific limit explicitly set to the default value yields to the general variable")
+	}
 	for _, sp := range []struct{ fn, first, second string }{
 		{"SpanAttributeValueLength", "SpanAttributeValueLengthKey", "AttributeValueLengthKey"}, {"SpanAttributeCount", "SpanAttributeCountKey", "AttributeCountKey"},
 	} {
@@ -935,3 +982,65 @@ func c20SDK(c *Ctx) {
 
 // inEdgeScope is a placeholder for scoping returns to the branch of an edge (all reachable returns are considered).
 func inEdgeScope(y *GNode, e *GEdge) bool { return true }
+
+// c20EnvReaders: in each named reader constructor (func(name..., fn func(T)) func(*EnvOptionsReader)) the returned closure
+// calls fn on every path on which the variable was present and parsed: the exit is reachable without the call only across
+// an edge that establishes "variable absent" (the ok result of GetEnvValue is false) or "an error occurred" (err != nil).
+func c20EnvReaders(c *Ctx, ix *PkgIndex, names ...string) {
+	info := ix.Pkg.TypesInfo
+	sp := shortPkg(ix.Pkg.PkgPath)
+	sp = sp[strings.Index(sp, "otlp/")+5:]
+	for _, name := range names {
+		fn := c.Fn(ix, "R7", name)
+		if fn == nil {
+			continue
+		}
+		key := sp + "|" + name + "|present and parsed ⇒ setter called"
+		// the setter: the function-typed parameter
+		var setter *types.Var
+		ps := fn.Obj.Type().(*types.Signature).Params()
+		for i := 0; i < ps.Len(); i++ {
+			if _, ok := ps.At(i).Type().Underlying().(*types.Signature); ok {
+				setter = ps.At(i)
+			}
+		}
+		lits := funcLits(fn.Body())
+		if setter == nil || len(lits) != 1 || ix.OfLit[lits[0]] == nil {
+			c.Undecided("R7", key, at(ix.M, fn.Pos()), "reader shape not recognised (setter parameter / single returned closure)")
+			continue
+		}
+		li := ix.OfLit[lits[0]]
+		g := ix.FG(li)
+		calls := toSet(g.Match(func(n ast.Node) bool {
+			call, ok := n.(*ast.CallExpr)
+			return ok && sameVar(info, call.Fun, setter)
+		}))
+		// presence flags: second results of GetEnvValue
+		okVars := map[types.Object]bool{}
+		ast.Inspect(li.Body(), func(n ast.Node) bool {
+			if as, ok := n.(*ast.AssignStmt); ok && len(as.Lhs) == 2 && len(as.Rhs) == 1 {
+				if call, ok := unparen(as.Rhs[0]).(*ast.CallExpr); ok {
+					if cf := callee(info, call); cf != nil && cf.Name() == "GetEnvValue" {
+						if o := objOf(info, as.Lhs[1]); o != nil {
+							okVars[o] = true
+						}
+					}
+				}
+			}
+			return true
+		})
+		excuse := func(e *GEdge) bool {
+			return g.edgeImpliesDeep(e, func(cnd ast.Expr, pol int) bool {
+				if id, ok := cnd.(*ast.Ident); ok && pol < 0 && okVars[info.Uses[id]] {
+					return true
+				}
+				nn, ok := nilCmp(info, cnd, pol, func(x ast.Expr) bool { return isErrVar(info, x) })
+				return ok && nn
+			})
+		}
+		seen, parent := g.ReachFromEntry(func(x *GNode) bool { return calls[x] }, excuse)
+		c.Analysed(fn)
+		c.Check(len(calls) > 0 && len(okVars) > 0 && !seen[g.Exit], "R7", key, at(ix.M, fn.Pos()), itoa(len(calls))+" setter call(s) cut every present-and-parsed path",
+			"a present variable can leave the setting untouched ("+g.pathLines(parent, g.Exit)+"): the signal-specific variable cannot reset what the generic one set (e.g. TRACES_COMPRESSION=none after COMPRESSION=gzip)")
+	}
+}
